@@ -357,6 +357,36 @@ def closedAt (S : List Summary) (fns : List FnInfo) (f : Nat) : Bool :=
   | some i => closedB S i.prog i.table && summarySub (summarize S i.prog i.table i.nparams i.ret) (summaryOf S f)
   | none => true
 
+/-! ## verdicts (per-module checking)
+
+The translator claims, for every function, which parameters / process-wide objects it may write and which its result may
+share; `entryOK` is what the kernel checks per function in the generated per-module files. -/
+
+structure Verdict where
+  writes : List Nat := []
+  globals : List Nat := []
+  share : List Nat := []
+  shareGlobals : List Nat := []
+  deriving Repr, Inhabited, DecidableEq
+
+def sameSet (a b : List Nat) : Bool := a.all (fun x => b.contains x) && b.all (fun x => a.contains x)
+
+def verdictOf (V : List Verdict) (f : Nat) : Verdict := V.getD f {}
+
+/-- function `f` with data `i`: its table is closed under its program, the summary it induces is within the summary table,
+and the write / sharing sets read off the table are the claimed verdict -/
+def entryOK (S : List Summary) (V : List Verdict) (f : Nat) (i : FnInfo) : Bool :=
+  closedB S i.prog i.table &&
+  summarySub (summarize S i.prog i.table i.nparams i.ret) (summaryOf S f) &&
+  sameSet (mayWriteIn S i.prog i.table) (verdictOf V f).writes &&
+  sameSet (mayWriteGlobalIn S i.prog i.table) (verdictOf V f).globals &&
+  sameSet (mayShareIn i.table i.ret) (verdictOf V f).share &&
+  sameSet (mayShareGlobalIn i.table i.ret) (verdictOf V f).shareGlobals
+
+theorem all_append_of {α : Type} {p : α → Bool} {l₁ l₂ : List α} (h₁ : l₁.all p = true) (h₂ : l₂.all p = true) :
+    (l₁ ++ l₂).all p = true := by
+  rw [List.all_append, h₁, h₂]; rfl
+
 /-! ## histories -/
 
 structure Call where
